@@ -259,7 +259,8 @@ def b_optimizer(tier):
                 ("PlainCachedRenamer", fx.PlainCachedRenamer, True, False, False), ("VarCollector", fx.VarCollector, False, True, True),
                 ("KwRenamer", fx.KwRenamer, False, False, True), ("ArgRenamer", fx.ArgRenamer, False, True, False),
                 ("TallyWalker", fx.TallyWalker, True, False, False), ("CountNodes", fx.CountNodes, True, False, False),
-                ("SumReverser", fx.SumReverser, True, False, False), ("QuotientSwapper", fx.QuotientSwapper, True, False, False)]
+                ("SumReverser", fx.SumReverser, True, False, False), ("QuotientSwapper", fx.QuotientSwapper, True, False, False),
+                ("PlainVarCollector", fx.PlainVarCollector, False, False, False), ("CachedPlainVarCollector", fx.CachedPlainVarCollector, True, False, False)]
     for bits in itertools.product((False, True), repeat=5):
         o = dict(zip(opts, bits))
         for sname, cls, cached, uses_a, uses_k in subjects:
@@ -375,10 +376,69 @@ def b_errors(tier):
     return b
 
 
+def b_hooks(tier):
+    """User mix-ins overriding one dispatch hook (map_foreign, handle_unsupported_expression, rec_fallback's MRO walk through a node subclass): memoizing == plain."""
+    import pymbolic.primitives as p
+    from pymbolic.mapper import (CachedCollector, CachedIdentityMapper, CachedWalkMapper, Collector, IdentityMapper, WalkMapper)
+    from pymbolic.mapper.substitutor import CachedSubstitutionMapper, SubstitutionMapper, make_subst_func
+    b = BoundedRun("hook-overrides", rule="mix-ins overriding map_foreign (integral floats become ints; record every foreign leaf; collect the types of foreign leaves) and "
+                   "handle_unsupported_expression (a user node type without handler is a leaf), combined with the memoizing and the plain identity / substitution / collector / walk "
+                   "mappers: same results, same recorded calls, on 10 expressions with constant leaves and a user node", bound="4 hooks x 4 mapper pairs x 10 expressions",
+                   functions=["Mapper.rec_fallback", "CachedMapper.__call__", "Mapper.__call__", "Mapper.map_foreign", "Mapper.handle_unsupported_expression"])
+    x, y = trees.X, trees.Y
+
+    @p.expr_dataclass()
+    class Opaque(p.Expression):
+        payload: int
+    opq = Opaque(7)
+    exprs = [p.Sum((2.0, x)), p.Product((3.0, x, 2)), p.Sum((x, p.Product((2, y)), 7.5)), p.Power(x, 2.0), p.Call(trees.F, (1, 2.0, x)), 5.0, 4, p.Sum((x, opq)), p.Product((opq, opq, 2.0)),
+             p.Quotient(p.Sum((x, 1.0)), p.Sum((opq, 1)))]
+
+    class IntegralFloats:
+        def map_foreign(self, expr, *a, **k):
+            if isinstance(expr, float) and expr.is_integer():
+                return int(expr)
+            return super().map_foreign(expr, *a, **k)
+
+    class LeafIsFine:
+        def handle_unsupported_expression(self, expr, *a, **k):
+            return expr
+
+    class Recorder:
+        def map_foreign(self, expr, *a, **k):
+            self.__dict__.setdefault("seen", []).append(expr)
+            return super().map_foreign(expr, *a, **k)
+
+    class TypeCollector:
+        def map_foreign(self, expr, *a, **k):
+            return {type(expr).__name__}
+
+        def handle_unsupported_expression(self, expr, *a, **k):
+            return {"unsupported:" + type(expr).__name__}
+    subst = make_subst_func({"x": y})
+    pairs = [("identity+integral-floats", type("A", (IntegralFloats, LeafIsFine, IdentityMapper), {}), type("B", (IntegralFloats, LeafIsFine, CachedIdentityMapper), {}), lambda c: c()),
+             ("substitution+integral-floats", type("A", (IntegralFloats, LeafIsFine, SubstitutionMapper), {}), type("B", (IntegralFloats, LeafIsFine, CachedSubstitutionMapper), {}), lambda c: c(subst)),
+             ("collector+types", type("A", (TypeCollector, Collector), {}), type("B", (TypeCollector, CachedCollector), {}), lambda c: c()),
+             ("walk+recorder", type("A", (Recorder, LeafIsFine, WalkMapper), {}), type("B", (Recorder, LeafIsFine, CachedWalkMapper), {}), lambda c: c())]
+    for pname, plain_cls, cached_cls, mk in pairs:
+        for e in exprs:
+            pm, cm = mk(plain_cls), mk(cached_cls)
+            want = outcome.run(lambda: pm(e))
+            got = outcome.run(lambda: cm(e))
+            b.case((pname, repr(e)), nontrivial=True, sample=dict(pair=pname, expr=repr(e)[:80]))
+            same = got[0] == want[0] and (got[1] is want[1] if got[0] == "exc" else _tree_typed_eq(got[1], want[1]) if pname != "collector+types" else got[1] == want[1])
+            if pname == "walk+recorder":
+                same = same and sorted(map(repr, set(map(repr, getattr(pm, "seen", []))))) == sorted(map(repr, set(map(repr, getattr(cm, "seen", [])))))
+            if not same:
+                b.fail(Failure("hook-overrides", f"pair={pname} expr={e!r}", dict(kind="hooks", pair=pname, expr=repr(e)), expected=outcome.describe(want)[:120] + f" seen={getattr(pm, 'seen', None)}"[:60],
+                               actual=outcome.describe(got)[:120] + f" seen={getattr(cm, 'seen', None)}"[:60], functions=["Mapper.rec_fallback", "CachedMapper.__call__"]))
+    return b
+
+
 def bounded(tier, seed, procs):
-    return [b_histories(tier), b_once(tier), b_types(tier), b_optimizer(tier), b_errors(tier)]
+    return [b_histories(tier), b_once(tier), b_types(tier), b_optimizer(tier), b_errors(tier), b_hooks(tier)]
 
 
 def replay(case):
-    f = {"hist": b_histories, "once": b_once, "types": b_types, "herr": b_errors}.get(case.get("kind"), b_optimizer)
+    f = {"hist": b_histories, "once": b_once, "types": b_types, "herr": b_errors, "hooks": b_hooks}.get(case.get("kind"), b_optimizer)
     return any(x.case == case for x in f("quick").failures)
